@@ -164,6 +164,9 @@ def run_model(lp, rec, rng):
     info = D.var_info()
     rec.cmp(n, "bounds")
     wantb = [(info[nm][0], info[nm][1]) if nm in info else (0.0, 0.0) for nm in names]
+    for i, nm in enumerate(names):
+        if nm in (lp.get("bound_edits") or {}):
+            wantb[i] = tuple(lp["bound_edits"][nm])
     gotb = [tuple(x) for x in LP.bounds]
     if [tuple(None if v is None else float(v) for v in t) for t in gotb] != [tuple(None if v is None else float(v) for v in t) for t in wantb]:
         bad("bounds-wrong", got=gotb, want=wantb)
